@@ -76,7 +76,7 @@ fn run_one(
         let st = c.project().await;
         let ev = std::mem::take(&mut c.events);
         w.write(&json!({"run":run,"id":id,"step":0,"a":{"a":"Init"},"applied":true,"st":st,"ev":ev,"msgs":[],
-            "cfg": {"n": cfg.n, "cap": cfg.cap}, "cfgIn": sched.get("cfg").cloned().unwrap_or(json!({}))}));
+            "cfg": {"n": cfg.n, "cap": cfg.cap, "lease_ms": cfg.lease_ms}, "cfgIn": sched.get("cfg").cloned().unwrap_or(json!({}))}));
         let mut i = 0u64;
         match random {
             None => {
@@ -107,10 +107,27 @@ fn run_one(
                         let key = if rng.random_bool(0.5) { "k1" } else { "k2" };
                         en.push(json!({"a":"Client","n":n,"op":"put","key":key,"val":format!("v{nclient}")}));
                     }
+                    if profile == "reads" {
+                        for &n in &ups {
+                            let key = if rng.random_bool(0.5) { "k1" } else { "k2" };
+                            for pol in ["lin", "lease", "ev"] {
+                                en.push(json!({"a":"Client","n":n,"op":"read","key":key,"policy":pol}));
+                            }
+                        }
+                        en.push(json!({"a":"Advance","ms":60}));
+                        en.push(json!({"a":"Advance","ms":200}));
+                    }
                     // weights by profile
                     let wt = |s: &Value| -> u32 {
                         let a = s["a"].as_str().unwrap_or("");
                         match (profile.as_str(), a) {
+                            ("reads", "Crash") => 1,
+                            ("reads", "Stop") => 0,
+                            ("reads", "Client") => 6,
+                            ("reads", "Advance") => 10,
+                            ("reads", "Timeout") => 3,
+                            ("reads", "DropMsg") => 8,
+                            ("reads", "Heartbeat") => 25,
                             ("member", "Crash") => 1,
                             ("member", "Stop") => 1,
                             ("member", "Join") => 12,
@@ -139,6 +156,7 @@ fn run_one(
                     if en.is_empty() {
                         break;
                     }
+                    en.retain(|s| wt(s) > 0);
                     let total: u32 = en.iter().map(&wt).sum();
                     let mut pick = rng.random_range(0..total);
                     let mut chosen = en[0].clone();
